@@ -35,6 +35,7 @@ pub fn tables() -> Vec<(&'static str, &'static [(&'static str, fn())])> {
     vec![
         ("selftest", selftest::TABLE),
         ("probe", probe::TABLE),
+        ("probe::b13", probe::b13::TABLE),
         ("probe::bisect", probe::bisect::TABLE),
         ("c01_tree", c01_tree::TABLE),
         ("c03_filters", c03_filters::TABLE),
